@@ -5,5 +5,6 @@ Extraction "model.ml" vio_kit maxl is_distb veqb
   greedy_policy greedy_prob greedy_tieset greedy_sample
   eps_prob eps_policy eps_sample sample_prob lrp_init lrp_step lrp_pol
   softmax_policy softmax_prob softmax_sample thompson_sample toptwo_sample
+  pga_grad_row pga_step_row possum project
   wolf_init wolf_step_row wolf_margin w_act
   separatedb shift is_dist_tolb closeb mass_on_maxb in_supportb.
